@@ -36,7 +36,7 @@ ASSUMPTIONS = [
     "atoms at distinct positions at least 0.05 bohr apart; points whose floating-point coordinate spacing is at least 64x below the smallest internuclear distance (|p| up to 1e12 bohr); beyond that nothing is decided (recorded as observation)",
     "atnums are int64 NumPy arrays of elements 1..86; the segment table covers all points (0 .. N, non-decreasing, empty segments allowed)",
     "Hirshfeld reference share = natural cubic spline of the shipped (r, dn) tables, own second-derivative/Thomas implementation in long double, tolerance in units of the float64 conditioning of that spline",
-    "rigid-motion equality is decided only at points where the conditioning bound M 1.5^order eps |coords| / Rmin is below 1e-6",
+    "rigid-motion equality is decided per value against 32x a first-order float64 forward-error model of w=P_A/sum P (cancellation eps/s in the cell functions + eps|coords|/R_AB in the distances; uses the documented radii and formula only as conditioning floor) and only where that bound is below 1e-6",
     "cell-monotone (weight of A non-increasing from nucleus A to nucleus B in a diatomic) is a consequence of the |a|<=1/2 clipping named in the mechanism; it is not in the literal statement",
 ]
 LEVEL_TEXT = "Held on every executed call of the five public functions over the seeded molecule/point families listed in the rule; not a proof for unvisited geometries."
@@ -49,6 +49,7 @@ TOL_SUM = 1e-12
 TOL_ROUTE = 1e-13
 TOL_RELABEL = 1e-13
 TOL_MONO = 1e-13
+RIGID_SAFETY = 16.0  # multiple of the first-order float64 error model allowed between two frames
 HIRSH_ELEMS = [1, 6, 7, 8]
 
 
@@ -405,15 +406,90 @@ def becke_case(ctx, params, family):
         else:
             w2 = matrix_by_generate(bw, pts2, at2, nums)
         coord = np.maximum(np.abs(pts).max(axis=1), np.abs(pts2).max(axis=1)) + max(np.abs(at).max(), np.abs(at2).max())
-        bound = 1e-13 + 512.0 * m * 1.5**order * np.finfo(float).eps * coord / min(mon.min_atom_distance(at), 1.0e3)
+        err = forward_error_bound(at, pts, nums, radii, order, coord)  # (M, N) first-order float64 error of one evaluation
+        if err is None:
+            ctx.count("rigid-motion:cases-without-error-model")
+            return
+        bound = 1e-13 + 2.0 * RIGID_SAFETY * err
         decided = bound < 1e-6
-        ctx.count("rigid-motion:points-decided", int(decided.sum()))
-        ctx.count("rigid-motion:points-too-ill-conditioned", int((~decided).sum()))
+        ctx.count("rigid-motion:values-decided", int(decided.sum()))
+        ctx.count("rigid-motion:values-too-ill-conditioned", int((~decided).sum()))
         if decided.any():
-            ratio = np.abs(w2 - base)[:, decided] / bound[decided][None, :]
+            diff = np.abs(w2 - base)
+            ratio = np.where(decided, diff / bound, 0.0)
             ratio = np.where(np.isnan(ratio), np.inf, ratio)
             k = np.unravel_index(int(np.argmax(ratio)), ratio.shape)
-            ctx.check("rigid-motion-invariant", "BeckeWeights", float(ratio[k]), 1.0, sig="changed-under-rotation+translation", detail={"abs_diff": float(np.abs(w2 - base)[:, decided][k]), "bound": float(bound[decided][k[1]]), **extra})
+            ctx.check("rigid-motion-invariant", "BeckeWeights", float(ratio[k]), 1.0, sig="changed-under-rotation+translation", detail={"abs_diff": float(diff[k]), "bound": float(bound[k]), "point": pts[k[1]], "atom": int(k[0]), **extra})
+
+
+def effective_radii(nums, radii):
+    """Radii the weights are documented to use: Bragg radii, user overrides, previous element(s) where undefined."""
+    from grid.utils import get_cov_radii
+
+    table = {i + 1: float(r) for i, r in enumerate(get_cov_radii(np.arange(1, 87), "bragg"))}
+    if radii:
+        table.update(radii)
+    out = []
+    for z in nums:
+        z = int(z)
+        r = table[z]
+        if np.isnan(r):
+            r = table.get(z - 1, np.nan)
+            if np.isnan(r) or r == 0:
+                r = table.get(z - 2, np.nan)
+        out.append(r)
+    out = np.array(out, dtype=float)
+    return out if np.all(np.isfinite(out)) and np.all(out > 0) else None
+
+
+def forward_error_bound(at, pts, nums, radii, order, coord):
+    """First-order forward error of evaluating w_A = P_A / sum_C P_C, P_A = prod_B s(v_AB), in float64.
+
+    Used ONLY as the conditioning floor of the rigid-motion comparison (never as the expected value): the cell
+    functions s = (1 - f^k(v))/2 lose relative accuracy eps/s by cancellation when s is tiny, and the distances carry an
+    absolute error of a few eps x |coordinates|.  Returns (M, N) absolute error estimates, or None without a radius model.
+    """
+    m, n = len(at), len(pts)
+    rad = effective_radii(nums, radii)
+    if rad is None:
+        return None
+    eps = np.finfo(float).eps
+    if m == 1:
+        return np.full((1, n), eps)
+    rp = np.linalg.norm(pts[:, None, :] - at[None, :, :], axis=-1)  # (N, M)
+    rab = np.linalg.norm(at[:, None, :] - at[None, :, :], axis=-1)
+    off = ~np.eye(m, dtype=bool)
+    rab_safe = np.where(off, rab, 1.0)
+    mu = (rp[:, :, None] - rp[:, None, :]) / rab_safe[None]
+    u = (rad[:, None] - rad[None, :]) / (rad[:, None] + rad[None, :])
+    with np.errstate(all="ignore"):
+        alpha = np.clip(np.where(np.abs(u) < 1, u / (u * u - 1), 0.0), -0.45, 0.45)
+    v = mu + alpha[None] * (1 - mu * mu)
+    dv = (1 + 2 * np.abs(alpha[None] * mu)) * 8.0 * eps * coord[:, None, None] / rab_safe[None] + 4 * eps * (1 + np.abs(v))
+    x = v
+    d = np.ones_like(v)
+    for _ in range(order):
+        d = d * 1.5 * np.abs(1 - x * x) + 4 * eps * (1 + np.abs(x) ** 3)  # error propagated through one more iterate
+        x = 1.5 * x - 0.5 * x**3
+    sab = 0.5 * (1 - x)
+    dsab = 0.5 * (d * dv + 2 * eps * (1 + np.abs(x)))
+    sab = np.where(off[None], sab, 1.0)
+    dsab = np.where(off[None], dsab, 0.0)
+    # leave-one-out products along B via prefix/suffix products
+    pre = np.ones((n, m, m + 1))
+    suf = np.ones((n, m, m + 1))
+    for j in range(m):
+        pre[:, :, j + 1] = pre[:, :, j] * sab[:, :, j]
+        suf[:, :, m - 1 - j] = suf[:, :, m - j] * sab[:, :, m - 1 - j]
+    prod = pre[:, :, m]  # (N, M) P_A
+    loo = pre[:, :, :m] * suf[:, :, 1:]  # (N, M, M) prod over B' != B
+    dprod = (dsab * np.abs(loo)).sum(axis=-1) + m * eps * np.abs(prod)
+    tot = prod.sum(axis=1)
+    with np.errstate(all="ignore"):
+        w = prod / tot[:, None]
+        err = (dprod + np.abs(w) * dprod.sum(axis=1)[:, None]) / np.abs(tot)[:, None] + 4 * eps
+    err = np.where(np.isfinite(err), err, np.inf)
+    return err.T
 
 
 def select_variants(ctx, bw, pts, at, nums, ref, extra, nvar=2, pinned=None):
